@@ -580,7 +580,16 @@ func (e *Exec) pnftSweep(r *Replica, m *Model, height int64, full bool, atH int6
 // ---------------------------------------------------------------------------------------------
 // replicas
 
-func (e *Exec) head() int64 { return int64(len(e.Blocks)) }
+func (e *Exec) head() int64 { return e.H0 + int64(len(e.Blocks)) }
+
+// at returns the record of the block at height h (nil when the chain has no such block).
+func (e *Exec) at(h int64) *BlockRec {
+	i := h - e.H0 - 1
+	if i < 0 || i >= int64(len(e.Blocks)) {
+		return nil
+	}
+	return e.Blocks[i]
+}
 
 func (e *Exec) feedReplica(r *Replica) {
 	if r.Dead {
@@ -592,7 +601,7 @@ func (e *Exec) feedReplica(r *Replica) {
 	}
 	burst := 0
 	for r.Applied < e.head() && !e.stop && !r.Dead {
-		rec := e.Blocks[r.Applied]
+		rec := e.at(r.Applied + 1)
 		e.applyOn(r, rec)
 		burst++
 	}
@@ -659,6 +668,9 @@ func (e *Exec) nearUpgrade(h int64) bool {
 // verifyRestartState: after a restart the node is at a committed height with exactly the twin's state.
 func (e *Exec) verifyRestartState(n *Node, boot bool, firstHeight int64, allowed []int64, tag string) (int64, bool) {
 	lh := n.LastHeight()
+	if lh == 0 {
+		lh = e.H0 // nothing committed yet: the application reports 0 whatever the chain's initial height is
+	}
 	ok := false
 	for _, a := range allowed {
 		if lh == a {
@@ -673,8 +685,8 @@ func (e *Exec) verifyRestartState(n *Node, boot bool, firstHeight int64, allowed
 		e.viol(prop, "restart.wrong_height", "", "%s: after restart the node reports height %d, allowed %v", tag, lh, allowed)
 		return lh, false
 	}
-	if lh >= firstHeight && lh >= 1 && lh <= e.head() {
-		rec := e.Blocks[lh-1]
+	if lh >= firstHeight && lh >= e.H0+1 && lh <= e.head() {
+		rec := e.at(lh)
 		if !boot {
 			info := n.Info()
 			if !bytes.Equal(info.LastBlockAppHash, rec.AppHash) {
@@ -724,7 +736,7 @@ func (e *Exec) applyBlock(n *Node, rec *BlockRec, o applyOpts) (out applyOutcome
 			e.midBlockTasks(n, h, boundary, o, rng)
 		}
 	}
-	isUpgrade := h >= 2 && e.Blocks[h-2].Plan != nil
+	isUpgrade := e.at(h-1) != nil && e.at(h-1).Plan != nil
 	_, halt := n.guard("BeginBlock", func() { n.App.BeginBlock(e.Env.BeginReq(rec.B)) })
 	if halt != nil {
 		out.Halt = halt
@@ -846,8 +858,8 @@ func (e *Exec) storm(n *Node, tx []byte, rng *PRNG) {
 func (e *Exec) midBlockTasks(n *Node, h int64, boundary int, o applyOpts, rng *PRNG) {
 	e.Stats.Inc("sched.mid_block_task")
 	committed := h - 1
-	if committed >= 1 && committed <= e.head() && !o.Boot {
-		rec := e.Blocks[committed-1]
+	if committed >= e.H0+1 && committed <= e.head() && !o.Boot {
+		rec := e.at(committed)
 		if rec.Panel != nil {
 			got, bad := n.RunPanel(smallPanel(rec.Panel), 0)
 			if bad != nil {
@@ -861,10 +873,10 @@ func (e *Exec) midBlockTasks(n *Node, h int64, boundary int, o applyOpts, rng *P
 			}
 		}
 		// a historical height
-		if committed >= 2 && o.HistoryOK {
-			hh := int64(rng.Range(1, int(committed)-1))
-			old := e.Blocks[hh-1]
-			if old.Panel != nil && hh >= 1 {
+		if committed >= e.H0+2 && o.HistoryOK {
+			hh := int64(rng.Range(int(e.H0)+1, int(committed)-1))
+			old := e.at(hh)
+			if old != nil && old.Panel != nil {
 				got, bad := n.RunPanel(smallPanel(old.Panel), hh)
 				if bad != nil {
 					e.viol("C17", "panic.query", "", "%s: a historical query was answered with a panic: %s", o.Tag, bad.Brief())
@@ -1070,7 +1082,7 @@ func (e *Exec) exportFrom(n *Node, tag string) (appState []byte, vals []abci.Val
 
 func (e *Exec) bootstrap(st *Step) {
 	h := e.head()
-	if h < 1 {
+	if len(e.Blocks) < 1 {
 		return
 	}
 	r0 := e.R[0]
@@ -1180,7 +1192,7 @@ func (e *Exec) bootstrap(st *Step) {
 		e.viol("C08", "import.first_block_halts", "", "the chain initialised from the export of height %d cannot process its first block: %s", h, what)
 		return
 	}
-	rec := e.Blocks[h-1]
+	rec := e.at(h)
 	if rec.Panel != nil {
 		got, bad := tmp.RunPanel(rec.Panel, 0)
 		if bad != nil {
@@ -1301,10 +1313,10 @@ func (e *Exec) finalChecks() {
 	}
 	// repeated queries at fixed heights return the recorded answers (C20)
 	rng := Keyed(e.S.Seed, "final")
-	for i := 0; i < 4 && e.head() >= 2; i++ {
-		hh := int64(rng.Range(1, int(e.head())-1))
-		old := e.Blocks[hh-1]
-		if old.Panel == nil {
+	for i := 0; i < 4 && len(e.Blocks) >= 2; i++ {
+		hh := int64(rng.Range(int(e.H0)+1, int(e.head())-1))
+		old := e.at(hh)
+		if old == nil || old.Panel == nil {
 			continue
 		}
 		got, bad := r0.RunPanel(old.Panel, hh)
@@ -1359,7 +1371,7 @@ func (e *Exec) upgradeChecks() {
 			if r.Dead || !r.Up || (r.Boot && r.FirstHeight >= b.Plan.Height) {
 				continue // a chain bootstrapped from a later export does not carry the upgrade bookkeeping
 			}
-			ctx := r.App.NewContext(true, e.Env.Header(e.Blocks[e.head()-1].B))
+			ctx := r.App.NewContext(true, e.Env.Header(e.at(e.head()).B))
 			if dh := r.App.UpgradeKeeper.GetDoneHeight(ctx, b.Plan.Name); dh != b.Plan.Height {
 				e.viol("C19", "upgrade.not_recorded", "", "replica %d: upgrade %s is recorded as done at height %d, the plan height is %d", r.ID, b.Plan.Name, dh, b.Plan.Height)
 				return
@@ -1374,9 +1386,9 @@ func (e *Exec) upgradeChecks() {
 			}
 		}
 		// custom data exactly what it was before the upgrade block
-		pre := e.Blocks[b.Plan.Height-2]
-		post := e.Blocks[b.Plan.Height-1]
-		if len(post.B.Txs) == 0 && pre.FlatHash != post.FlatHash {
+		pre := e.at(b.Plan.Height - 1)
+		post := e.at(b.Plan.Height)
+		if pre != nil && post != nil && len(post.B.Txs) == 0 && pre.FlatHash != post.FlatHash {
 			e.viol("C19", "upgrade.custom_data_changed", "", "custom-module state changed across the upgrade block %d", b.Plan.Height)
 			return
 		}
